@@ -256,12 +256,13 @@ def _check(plan, ctx):
                                     stray=sorted({k for k in data.__dict__} - had_attr))
                 ctx.cls("assignment_rejected")
                 continue
-            if legal is False:
+            if legal is False or (legal is None and len(dict.__getitem__(data, name)) != n):
                 raise Violation(f"{where}: a value of mismatching length was stored instead of rejected", length=ln, nrow=n,
-                                stored=len(data[name]))
+                                stored=len(dict.__getitem__(data, name)))
             if name not in names and model.names is not None:
                 model.names = model.names + [name]
             model.removed.discard(name)
+            invariant(data, model, where + " (after assignment)")      # before any use of nrow: it raises on ragged frames
             if ln in ("scalar", 1) and data.nrow >= 1 and not _identical(data[name], data.nrow):
                 raise Violation(f"{where}: scalar / length-1 value was not broadcast to nrow identical cells")
             ctx.cls("assignment_ok_" + str(s["value"]["how"]))
